@@ -874,6 +874,30 @@ pub fn regressions(ctx: &mut Ctx) {
         cases.push(("conv.line", "row address not a multiple of minimum_instruction_length", s.clone(), p));
         cases.push(("line", "row address not a multiple of minimum_instruction_length", s, p));
     }
+    // fixes a0172f1 (A), c588a77 (B) and the line_advance fix (C), all found by this check's gen::line
+    // seeds: (A) VLIW rows converted into a target encoding with fewer operations per
+    // instruction, (B) a sequence tombstoned part-way, (C) a row with line >= 2^63 after a small one
+    {
+        let unhex = crate::rt::unhex;
+        let info = "0000001300040000000004016e2e63002f640000000000";
+        let abbrev = "01110003081b081017000000";
+        let a_line = "77000000050004002a000000010801fb0e0a000101010100000001010108022f640073756200020108020f02612e630000622e630001000502100000000d020301000502500000000b037e0401050706070108090400000204010100010166a7010700050241000000a906000403e7c9ab9a000303650601000101";
+        let b_line = "0000006c000400000026040201fb0e0d0001010101000000010000017375620000612e6300000000622e6300010304000005020000001010020301000502ffffffff0e037e04010507060701080900040a0b0c02000204010100060366000000000201010001010101560bf501000101";
+        let c_line = "0000007c0003000000250101fb0e0d0001010101000000010000017375620000612e6300000000622e6300010304000005020000001010020301000502000000500e037e04010507060701080900040a0b0c02000204010100060366000000000201010001010c81800409635d03ffffffffffffffffff009e010bf201000101";
+        let mut s = Secs::default();
+        s.set(SectionId::DebugLine, unhex(a_line));
+        cases.push(("conv.line", "VLIW rows into a target line encoding with maximum_operations_per_instruction 1", s, P { enc: Enc::new(true, false, 5, 4), ..p }));
+        let mut s = Secs::default();
+        s.set(SectionId::DebugLine, unhex(b_line));
+        cases.push(("conv.line", "sequence tombstoned part-way, then another sequence", s.clone(), P { enc: Enc::new(false, false, 4, 4), ..p }));
+        s.set(SectionId::DebugInfo, unhex(info));
+        s.set(SectionId::DebugAbbrev, unhex(abbrev));
+        cases.push(("conv.dwarf_from", "sequence tombstoned part-way, then another sequence", s.clone(), P { enc: Enc::new(false, false, 4, 4), ..p }));
+        cases.push(("conv.stepwise", "sequence tombstoned part-way, then another sequence", s, P { enc: Enc::new(false, false, 4, 4), ..p }));
+        let mut s = Secs::default();
+        s.set(SectionId::DebugLine, unhex(c_line));
+        cases.push(("conv.line", "row with line >= 2^63 after a row with a small line", s, P { enc: Enc::new(false, false, 3, 4), ..p }));
+    }
     // die_ranges: low_pc near max + high_pc constant
     {
         let mut ab = Asm::new(true);
